@@ -35,6 +35,8 @@ pub struct KeySpaceId(NonZeroU64);
 
 impl KeySpaceId {
     fn fresh() -> Self {
+        #[cfg(zydeco_verif)]
+        use crate::verif::AtomicU64;
         static NEXT_KEY_SPACE_ID: AtomicU64 = AtomicU64::new(0);
 
         let id = NEXT_KEY_SPACE_ID
